@@ -10,7 +10,9 @@ EXTENDS Integers, Sequences, FiniteSets
 \* registration order of the built-in types = type_index
 TypeSeq == <<"NoneGridObject", "Hidden", "Floor", "Wall", "Exit", "Door",
              "Key", "MovingObstacle", "Box", "Telepod", "Beacon",
-             "Coin">>   \* Coin: the custom object of examples/coin_env.py (registered when that module is imported)
+             "Coin",    \* Coin: the custom object of examples/coin_env.py (registered when that module is imported)
+             "Gem">>    \* Gem: a user-defined HOLDABLE object (harness/custom.py, registered after Coin): Key is the only
+                        \* built-in holdable type, and the dynamics must go by the attribute, not by the class
 Types == {TypeSeq[i] : i \in 1..Len(TypeSeq)}
 TypeIndex(t) == CHOOSE i \in 0..(Len(TypeSeq) - 1) : TypeSeq[i + 1] = t
 NumStates(t) == IF t = "Door" THEN 3 ELSE 1
@@ -40,6 +42,7 @@ Key(c) == Obj("Key", 0, c)
 Obstacle == Obj("MovingObstacle", 0, "NONE")
 Telepod(c) == Obj("Telepod", 0, c)
 Beacon(c) == Obj("Beacon", 0, c)
+Gem == Obj("Gem", 0, "NONE")
 Box(content) == [t |-> "Box", s |-> 0, c |-> "NONE", in |-> <<content>>]
 
 IsType(o, t) == o.t = t
@@ -51,7 +54,7 @@ BlocksMovement(o) ==
 BlocksVision(o) ==
   \/ o.t \in {"NoneGridObject", "Hidden", "Wall"}
   \/ (o.t = "Door" /\ o.s # DoorOpen)
-Holdable(o) == o.t = "Key"
+Holdable(o) == o.t \in {"Key", "Gem"}
 
 \* a well-formed object of the built-in types (depth of box nesting bounded by d)
 RECURSIVE WellFormedObj(_, _)
